@@ -342,6 +342,20 @@ def check(run):
                 add(lines, 'cc', S.mk_multi(K, members_for(mask, related, near, far, ci)), c)
     run.run_cases('contains-coordinate', lines, impl, spec, tag=_tag, nontrivial=_nontrivial)
 
+    # ---- 2b. islands: a member lying inside the hole of an *earlier* (and of a later) member; the query sits in the
+    #          island, i.e. in a hole of one member and inside another member (seeded change C04-m1)
+    lines = []
+    centre = S.ref_coords(FOCUS)[1]
+    for holed in ('PH', 'BH', 'RB'):
+        for island in ('Pm', 'Bm', 'Cm'):
+            far = far_members('MP')
+            hm, im = T[FOCUS][holed], T[FOCUS][island]
+            for ms in ([hm, im], [im, hm], [far[0], hm, im], [hm, far[0], im], [im, far[0], hm], [hm, hm, im],
+                       [hm, im, far[0], far[1]]):
+                for c in (centre, S.ref_coords(FOCUS)[0], S.ref_coords(FOCUS)[3]):
+                    add(lines, 'cc', S.mk_multi('MP', ms), c)
+    run.run_cases('islands-in-holes', lines, impl, spec, tag=_tag, nontrivial=_nontrivial)
+
     # ---- 3. single receiver x multi argument (the mirrored calls) --------------------------------------
     lines = []
     for K in ('MP', 'ML', 'MT'):
